@@ -967,3 +967,9 @@ _add_family(globals(), _cdv, 'composerdiv', _cdv.oracle, share=0.03)
 # daughters starting from one shared dictionary value, one of them merging into a nested entry afterwards
 from harness import mergediv as _md                     # noqa: E402
 _add_family(globals(), _md, 'mergediv', _md.oracle, share=0.02)
+
+
+# dividers with a wildcard topology
+from harness import wilddiv as _wd                      # noqa: E402
+from harness.mixins import add_family as _add_family    # noqa: E402,F811
+_add_family(globals(), _wd, 'wilddiv', _wd.oracle, share=0.03)
